@@ -202,6 +202,7 @@ type c12Item struct {
 	datums []*Datum        // reference decoding of encs
 	wants  []reflect.Value // encs read back, alone
 	files  map[string][]byte
+	damaged map[string][]byte // per compressing codec: the file with the first block's stored bytes overwritten (the decompressor refuses it)
 	hasMap bool
 }
 
@@ -316,6 +317,17 @@ func c12Prepare(rng *rand.Rand, nitems int) []*c12Item {
 				k += m
 			}
 			it.files[cname] = ct.Bytes(false)
+			if cname != "null" && len(ct.Blocks) > 0 {
+				dm := append([]byte{}, it.files[cname]...)
+				start := ct.BlockEnds[0] - 16 - len(ct.Blocks[0].Raw)
+				for j := start; j < ct.BlockEnds[0]-16; j++ {
+					dm[j] = 0xFF
+				}
+				if it.damaged == nil {
+					it.damaged = map[string][]byte{}
+				}
+				it.damaged[cname] = dm
+			}
 		}
 		items = append(items, it)
 	}
@@ -439,6 +451,30 @@ func (cw *c12Worker) opReadFile() {
 	it := cw.w.items[cw.rng.Intn(len(cw.w.items))]
 	cname := codecNames[cw.rng.Intn(3)]
 	rt := it.g.RType()
+	// one read in five is preceded by a read of the same file with its first block damaged: refused,
+	// and without consequence for this or any other goroutine's reads
+	if dm := it.damaged[cname]; dm != nil && cw.rng.Intn(5) == 0 {
+		n := 0
+		err := func() (err error) {
+			defer func() {
+				if p := recover(); p != nil {
+					err = fmt.Errorf("PANIC: %v", p)
+				}
+			}()
+			return avro.ReadFile(bytes.NewReader(dm), reflect.New(rt).Elem().Interface(), func(val unsafe.Pointer, rb *avro.ResourceBank) error {
+				n++
+				rb.Close()
+				return nil
+			})
+		}()
+		switch {
+		case isPanicErr(err):
+			cw.fail("concurrent-panic", fmt.Sprintf("ReadFile(%s, %s) with a damaged first block: %v", it.name, cname, err))
+		case err == nil || n != 0:
+			cw.fail("concurrent-result-differs", fmt.Sprintf("ReadFile(%s, %s) with a damaged first block returned %v after %d records; alone it is refused before any record", it.name, cname, err, n))
+		}
+		cw.w.count("op/readfile-damaged", 1)
+	}
 	var got []reflect.Value
 	var banks []*avro.ResourceBank
 	// one read in four is stopped early by the callback's own error, after the
